@@ -1099,6 +1099,8 @@ var leafTags = []string{"", "", "", "", "", `json:"a"`, `json:"b"`, `json:"A"`, 
 
 func init() {
 	leafTags = append(leafTags, `json:"`+kelvin+`"`, `json:"`+kelvin+`,case:ignore"`, `json:"a`+longS+`,case:ignore"`, `json:"AS"`)
+	// cased characters that are not letters (number-letters, enclosed alphanumerics, a combining mark): simple case folding applies to them too
+	leafTags = append(leafTags, "json:\"ch-\u2167,case:ignore\"", "json:\"\u24b6b,case:ignore\"", "json:\"\u2177\"", "json:\"x\u0345,case:ignore\"", "json:\"\u24d0B\"")
 }
 
 var declared = []string{"E1", "E2", "E4", "E5", "E6", "*E1", "*E4", "*E5"}
